@@ -79,8 +79,15 @@ class _FilesystemDataSource(DataSource):
     def _write_non_versioned_link(self, versioned_key: VersionedDataSourceKey):
         non_versioned_path = self._get_non_versioned_link_path(versioned_key.key)
         versioned_path = self._get_path_versioned(versioned_key)
-        with open(str(non_versioned_path), "w") as f:
+        # Write the link to a temporary file and move it into place atomically, so that a
+        # crash or an I/O error never leaves an empty or truncated link behind. (An empty link
+        # resolves to the current directory, which exists.)
+        tmp_dir = self.base_path.joinpath(".tmp")
+        os.makedirs(str(tmp_dir), exist_ok=True)
+        tmp_path = tmp_dir.joinpath(str(uuid4()) + ".link")
+        with open(str(tmp_path), "w") as f:
             f.write(str(versioned_path))
+        os.replace(str(tmp_path), str(non_versioned_path))
 
     def _delete_non_versioned_link(self, key: DataSourceKey):
         non_versioned_path = self._get_non_versioned_link_path(
